@@ -21,7 +21,7 @@ META = dict(
     outside=["bounding box of a product whose first factor depends on the second (documented as a sampled approximation; only "
              "the set_bounding_box override is checked)", "shapely/trimesh primitives", "k>2 rows, nesting depth >2",
              "the Latin-hypercube law itself (C11)"],
-    assumptions=["shapes have positive measure"],
+    assumptions=["shapes have positive measure; consumers (normalisation, LHS): the set has an interior point"],
 )
 
 
@@ -173,6 +173,11 @@ def rotate_r(env, a, how, tag="rot", around=True):
                 for i, prm in enumerate(rows):
                     cw, sw = cs(prm)
                     env.assume(L.And(L.eq(e[2 * i], cw), L.eq(e[2 * i + 1], sw)))
+                # cos/sin are fresh symbols per argument term: state that they are functions of the angle
+                for i in range(k):
+                    for j in range(i + 1, k):
+                        env.assume(L.Implies(L.eq(wo(rows[i])[0], wo(rows[j])[0]),
+                                             L.And(L.eq(e[2 * i], e[2 * j]), L.eq(e[2 * i + 1], e[2 * j + 1]))))
                 return
             angs = [math.atan2(e[2 * i + 1], e[2 * i]) for i in range(k)]
             ts = [float(prm["t"][0]) for prm in rows]
@@ -492,6 +497,13 @@ def set_box_case(dependent):
 # --------------------------------------------------------------------------
 
 
+def _nonempty_interior(env, sh, d):
+    """assumption: the (composite) set has an interior point -- positive measure of the operands does not give that
+    for intersections and cuts, and a box of width 0 cannot be normalised"""
+    w = SH.elems(env, env.tensor("w_interior", (d,)))
+    env.assume(sh.oset.interior(w, {}, env.L, 0))
+
+
 def normalize_case(name, mk, info):
     cname = "normalize/%s" % name
 
@@ -500,6 +512,7 @@ def normalize_case(name, mk, info):
         d = _dim(sh)
         L = env.L
         env.assume(sh.oset.positive({}, L))
+        _nonempty_interior(env, sh, d)
         with minmax_mode(env, "ite"):
             layer = tp.models.NormalizationLayer(sh.dom)
         coords, q = {}, []
@@ -531,6 +544,7 @@ def lhs_case(name, mk, info, n):
         d = _dim(sh)
         L = env.L
         env.assume(sh.oset.positive({}, L))
+        _nonempty_interior(env, sh, d)
         s = tp.samplers.LHSSampler(sh.dom, n_points=n)
         with minmax_mode(env, "ite"):
             box = sh.dom.bounding_box()
@@ -641,8 +655,7 @@ def cases(tier):
     cs.append(set_box_case(True))
     reps_q = ("Interval", "Circle", "Parallelogram", "(Circle+Parallelogram)", "(Interval-Interval)", "(Circle*Interval)",
               "Translate(Circle)", "Rotate<matrix>(Circle)")
-    reps_t = reps_q + ("Triangle", "Sphere", "(Circle-Parallelogram)", "(Circle&Parallelogram)", "Rotate<matrix>(Parallelogram*)",
-                       "Translate(Parallelogram)", "(Interval+Interval)", "(Interval&Interval)", "(Parallelogram*Interval)")
+    reps_t = reps_q + ("Triangle", "Sphere", "(Circle-Parallelogram)", "(Circle&Parallelogram)", "Translate(Parallelogram)", "(Interval+Interval)", "(Interval&Interval)", "(Parallelogram*Interval)")
     for name, mk, info in cat:
         if name in (reps_q if quick else reps_t) and not _is_dep(info, name):
             cs.append(normalize_case(name, mk, info))
